@@ -104,6 +104,14 @@ def check_pattern(ctx, tr, rng, k, j, forced=None):
             fn.append('NEGATE')
         elif r < 0.24:
             kw = {'exclude': gen.ser(gen.tree_pattern(rng, ents, maxseg=2))}
+        elif r < 0.36 and r >= 0.3:
+            # exclusions alone: NEGATEALL supplies an implicit `**` (an ordinary one: it does not go through links either)
+            t2 = gen.ser(gen.tree_pattern(rng, ents, maxseg=2))
+            if t2 and not t2.startswith('('):
+                pats = ['!' + t2] if rng.random() < 0.7 else ['!' + t2, '!zz-none*']
+                fn += ['NEGATE', 'NEGATEALL']
+                toks = [(('gstar',),)]
+                text = '**'
         elif r < 0.3:
             t2 = gen.tree_pattern(rng, ents, maxseg=3)
             if t2 and t2[0][0] != 'sep' and not gen.ambiguous_adjacency(t2):
